@@ -15,7 +15,9 @@ const advSchema = `type Query { a: Int b: Int f(x: Int): Q q: Q l: [Q] u: U i: I
 type Q implements I { a: Int b: Int f(x: Int): Q q: Q l: [Q] s: String }
 type R implements I { a: Int b: String q: Q }
 interface I { a: Int q: Q }
-union U = Q | R`
+union U = Q | R
+type Mutation { a: Int q: Q }
+type Subscription { a: Int q: Q }`
 
 type advCase struct {
 	family string
@@ -43,6 +45,16 @@ func adversarial(sizes []int) []advCase {
 		}
 		fmt.Fprintf(&sb, " fragment F%d on Q{a}", n)
 		out = append(out, advCase{"fragment fan-out", n, sb.String()})
+		// the same fan-out at the top of a subscription and of a mutation (rules that look at root fields)
+		for _, root := range [][2]string{{"subscription", "Subscription"}, {"mutation", "Mutation"}} {
+			sb.Reset()
+			sb.WriteString(root[0] + "{...F0}")
+			for i := 0; i < n; i++ {
+				fmt.Fprintf(&sb, " fragment F%d on %s{...F%d ...F%d}", i, root[1], i+1, i+1)
+			}
+			fmt.Fprintf(&sb, " fragment F%d on %s{a}", n, root[1])
+			out = append(out, advCase{root[0] + " root fragment fan-out", n, sb.String()})
+		}
 		// fragment cycle through fields, overlapping on a field with sub-selections
 		sb.Reset()
 		sb.WriteString("{q{...C0}}")
@@ -93,6 +105,12 @@ func runC02(c *core.Ctx) {
 		sizes = []int{4, 8, 12, 16, 20, 24, 28, 32}
 	}
 	cases := GenValidationCases(c, nSchemas, per, nil)
+	// fragments that reuse response keys and spread one another, one document in four with cycles
+	nStress := 3000
+	if !c.Quick {
+		nStress = 40000
+	}
+	cases = append(cases, OverlapStress(c.Rng, nStress)...)
 	// schema loading on arbitrary SDL and on single-fault schemas
 	type lc struct{ srcs []string }
 	var loads []lc
@@ -145,23 +163,45 @@ func runC02(c *core.Ctx) {
 	// adversarial families: time of the implementation (measured, not proved) and agreement with the model
 	adv := adversarial(sizes)
 	prev := map[string][]float64{}
+	// what every call pays whatever the document: loading the schema (prelude included)
+	base := 1e9
+	for rep := 0; rep < 5; rep++ {
+		t1 := time.Now()
+		c.Impl(0, "val", valArgs("*", VCase{Srcs: []string{advSchema}, Query: "{a}"})...)
+		if e := time.Since(t1).Seconds(); e < base {
+			base = e
+		}
+	}
 	for _, a := range adv {
 		k := VCase{Srcs: []string{advSchema}, Query: a.query}
 		args := valArgs("*", k)
 		t0 := time.Now()
 		impl := c.Impl(0, "val", args...)
 		el := time.Since(t0).Seconds()
+		// small times are noisy: take the least of three
+		for rep := 0; rep < 2 && el < 0.05; rep++ {
+			t1 := time.Now()
+			c.Impl(0, "val", args...)
+			if e2 := time.Since(t1).Seconds(); e2 < el {
+				el = e2
+			}
+		}
 		c.Count("adversarial_"+strings.ReplaceAll(a.family, " ", "_"), 1)
 		if strings.HasPrefix(impl, "panic") {
 			c.ReportOracle("validate-panic", map[string]interface{}{"op": "val", "args": hexArgs(args), "family": a.family, "size": a.size, "implementation": impl})
 			continue
 		}
-		// a kilobyte-sized request must not take seconds; growth must stay polynomial:
-		// time may not double per size step over three consecutive steps once it is measurable
+		// a kilobyte-sized request must not take seconds; growth must stay polynomial: sizes grow
+		// by 4 from 8 on (a factor of at most 1.5), so a polynomial of degree 4 grows by at most 5.1
+		// per step; exponential growth multiplies by 16. Two consecutive steps above 6 are reported.
 		budget := 1.0 + float64(len(a.query))/4096.0
-		prev[a.family] = append(prev[a.family], el)
+		net := el - base
+		if net < 1e-5 {
+			net = 1e-5
+		}
+		prev[a.family] = append(prev[a.family], net)
 		p := prev[a.family]
-		doubling := len(p) >= 4 && p[len(p)-1] > 0.05 && p[len(p)-1] > 1.9*p[len(p)-2] && p[len(p)-2] > 1.9*p[len(p)-3] && p[len(p)-3] > 1.9*p[len(p)-4]
+		doubling := len(p) >= 4 && p[len(p)-1] > 0.002 && p[len(p)-1] > 6*p[len(p)-2] && p[len(p)-2] > 6*p[len(p)-3]
 		if el > budget || doubling {
 			c.ReportOracle("validation-time", map[string]interface{}{"op": "val", "args": hexArgs(args), "family": a.family, "size": a.size, "bytes": len(a.query),
 				"seconds": el, "budget_seconds": budget, "times_by_size": p})
